@@ -91,15 +91,22 @@ def fam_raise(N, variant, trigger, finite_len):
         # the trigger is re-sent with sendTo addressed to the machine itself (XState's
         # sendTo(({self}) => self, ...)), through the enqueueActions callback
         raises = [{"type": "xstate.enqueueActions", "params": {"callback": _send_self_cb}}]
+    if variant == 4:
+        # "at once" spelled as an explicit zero delay (0, 0.0): still the same chain
+        raises = [{"type": "xstate.raise", "params": {"event": "E", "delay": 0 if N % 2 else 0.0}}]
+    if variant == 5:
+        # the handler re-queues the very event object it is handling
+        raises = [{"type": "xstate.raise", "params": {"event": (lambda a: a["event"])}}]
 
     if finite_len is None:
         acts = ["cnt"] + raises
     else:
         acts = [{"type": "xstate.choose", "params": {"conditions": [
             {"guard": "below", "actions": ["cnt", "inc"] + raises[:1]}]}}]
-    st = {"on": {"E": {"actions": acts}, "GO": {"actions": [raises[0]]}}}
+    first = {"type": "xstate.raise", "params": {"event": "E"}} if variant == 5 else raises[0]
+    st = {"on": {"E": {"actions": acts}, "GO": {"actions": [first]}}}
     if trigger == "start":
-        st["entry"] = [raises[0]]
+        st["entry"] = [first]
     return {"id": "m", "initial": "s", "maxIterations": N, "context": {"n": 0, "L": finite_len or 0},
             "on": {"P": {"actions": ["probe"]}}, "states": {"s": st}}
 
@@ -170,7 +177,7 @@ def fam_expand(N, variant, trigger, finite_len):
 
 FAMILIES = {
     "always": (fam_always, [1, 2, 3]),
-    "raise": (fam_raise, [1, 2, 3]),
+    "raise": (fam_raise, [1, 2, 3, 4, 5]),
     "ondone": (fam_ondone, [1, 2, 3]),
     "invoke": (fam_invoke, [1, 2]),
     "expand": (fam_expand, [1, 2, 3]),
